@@ -143,6 +143,8 @@ def make_builtins(it):
 
     def minmax(name, pick_second):
         def f(*args, key=None, default=None):
+            if len(args) == 1 and key is None and default is None and isinstance(args[0], Sym) and hasattr(args[0], "reduce_min"):
+                return args[0].reduce_min(it, name)
             items = it.iterate(args[0]) if len(args) == 1 else list(args)
             if not items:
                 if default is not None:
@@ -160,6 +162,11 @@ def make_builtins(it):
                     continue
                 if it.truth(c):
                     best, bk = x, xk
+            if getattr(it.e, "let_bind", False) and isinstance(best, SInt) and not z3.is_const(best.t):
+                # name the result (definitional equation) so that later terms stay small
+                v = z3.Int(it.ctx.fresh_name(name))
+                it.ctx.assume(v == best.t)
+                return lift(v)
             return best
         return f
     B["max"] = Builtin("max", minmax("max", True))
@@ -214,6 +221,8 @@ def make_builtins(it):
 
     @reg("enumerate")
     def _enum(xs, start=0):
+        if isinstance(start, SInt):
+            return [(lift(start.t + i), x) for i, x in enumerate(it.iterate(xs))]
         return list(enumerate(it.iterate(xs), start))
 
     @reg("reversed")
